@@ -3,7 +3,7 @@
    changed - and re-run with one location perturbed at a time - reads = what influences what it writes), for the
    configurations of the run (corpus + generated).  These theorems are re-checked by coqc against what the code does now. *)
 From Coq Require Import ZArith List Bool.
-From CV Require Import C12.SmpModel C12.SmpProofs Gen.GenFootC12.
+From CV Require Import C12.SmpModel C12.SmpProofs Gen.GenFootC12 Gen.GenBiasC12.
 Import ListNotations.
 
 (* the derived footprints of the component-loop items, of the collection phase and of the bias-loop items (incl. the
@@ -32,3 +32,14 @@ Print Assumptions C12_gen_rich_items_independent.
 Example C12_gen_nonempty : negb (Nat.eqb (length gen_probes) 0) = true /\
   existsb (fun p => Nat.leb 2 (length (p_comp p))) gen_probes = true.
 Proof. vm_compute. split; reflexivity. Qed.
+
+(* for every bias kind that the engine simulator can configure: replica_share_freq() printed by the rebuilt binary = the model's
+   table, and the parallel bias loop was taken (with that bias alone, mode cvcs) exactly when the model says so *)
+Theorem C12_gen_share_freq_matches_model :
+  forallb (fun x => match x with (k, f, par) =>
+             Nat.eqb (replica_share_freq k) f && Bool.eqb (parallel_bias_loop ModeCvcs [k]) par end) gen_bias_kinds = true.
+Proof. vm_compute. reflexivity. Qed.
+Print Assumptions C12_gen_share_freq_matches_model.
+
+Example C12_gen_bias_kinds_nonempty : Nat.leb 8 (length gen_bias_kinds) = true.
+Proof. vm_compute. reflexivity. Qed.
